@@ -1185,8 +1185,8 @@ func (p *parser) parseJob(id *String, n *yaml.Node) *Job {
 	//   - jobs.<job_id>.permissions
 
 	// https://docs.github.com/en/actions/using-workflows/reusing-workflows#supported-keywords-for-jobs-that-call-a-reusable-workflow
-	var stepsOnlyKey *String
-	var callOnlyKey *String
+	var stepsOnlyKeys []*String
+	var callOnlyKeys []*String
 
 	for _, kv := range p.parseMapping(fmt.Sprintf("%q job", id.Value), n, false, true) {
 		k, v := kv.key, kv.val
@@ -1203,44 +1203,45 @@ func (p *parser) parseJob(id *String, n *yaml.Node) *Job {
 			}
 		case "runs-on":
 			ret.RunsOn = p.parseRunsOn(v)
-			stepsOnlyKey = k
+			stepsOnlyKeys = append(stepsOnlyKeys, k)
 		case "permissions":
 			ret.Permissions = p.parsePermissions(k.Pos, v)
 		case "environment":
 			ret.Environment = p.parseEnvironment(k.Pos, v)
-			stepsOnlyKey = k
+			stepsOnlyKeys = append(stepsOnlyKeys, k)
 		case "concurrency":
 			ret.Concurrency = p.parseConcurrency(k.Pos, v)
 		case "outputs":
 			ret.Outputs = p.parseOutputs(v)
-			stepsOnlyKey = k
+			stepsOnlyKeys = append(stepsOnlyKeys, k)
 		case "env":
 			ret.Env = p.parseEnv(v)
-			stepsOnlyKey = k
+			stepsOnlyKeys = append(stepsOnlyKeys, k)
 		case "defaults":
 			ret.Defaults = p.parseDefaults(k.Pos, v)
-			stepsOnlyKey = k
+			stepsOnlyKeys = append(stepsOnlyKeys, k)
 		case "if":
 			ret.If = p.parseString(v, false)
 		case "steps":
 			ret.Steps = p.parseSteps(v)
-			stepsOnlyKey = k
+			stepsOnlyKeys = append(stepsOnlyKeys, k)
 		case "timeout-minutes":
 			ret.TimeoutMinutes = p.parseTimeoutMinutes(v)
-			stepsOnlyKey = k
+			stepsOnlyKeys = append(stepsOnlyKeys, k)
 		case "strategy":
 			ret.Strategy = p.parseStrategy(k.Pos, v)
 		case "continue-on-error":
 			ret.ContinueOnError = p.parseBool(v)
-			stepsOnlyKey = k
+			stepsOnlyKeys = append(stepsOnlyKeys, k)
 		case "container":
 			ret.Container = p.parseContainer("container", k.Pos, v)
-			stepsOnlyKey = k
+			stepsOnlyKeys = append(stepsOnlyKeys, k)
 		case "services":
 			ret.Services = p.parseServices(v)
+			stepsOnlyKeys = append(stepsOnlyKeys, k)
 		case "uses":
 			call.Uses = p.parseString(v, false)
-			callOnlyKey = k
+			callOnlyKeys = append(callOnlyKeys, k)
 		case "with":
 			with := p.parseSectionMapping("with", v, false, false)
 			call.Inputs = make(map[string]*WorkflowCallInput, len(with))
@@ -1250,7 +1251,7 @@ func (p *parser) parseJob(id *String, n *yaml.Node) *Job {
 					Value: p.parseString(i.val, true),
 				}
 			}
-			callOnlyKey = k
+			callOnlyKeys = append(callOnlyKeys, k)
 		case "secrets":
 			if kv.val.Kind == yaml.ScalarNode {
 				// `secrets: inherit` special case
@@ -1270,7 +1271,7 @@ func (p *parser) parseJob(id *String, n *yaml.Node) *Job {
 					}
 				}
 			}
-			callOnlyKey = k
+			callOnlyKeys = append(callOnlyKeys, k)
 		default:
 			p.unexpectedKey(kv.key, "job", []string{
 				"name",
@@ -1297,14 +1298,15 @@ func (p *parser) parseJob(id *String, n *yaml.Node) *Job {
 	}
 
 	if call.Uses != nil {
-		if stepsOnlyKey != nil {
+		for _, k := range stepsOnlyKeys {
 			p.errorfAt(
-				stepsOnlyKey.Pos,
+				k.Pos,
 				"when a reusable workflow is called with \"uses\", %q is not available. only following keys are allowed: \"name\", \"uses\", \"with\", \"secrets\", \"needs\", \"if\", and \"permissions\" in job %q",
-				stepsOnlyKey.Value,
+				k.Value,
 				id.Value,
 			)
-		} else {
+		}
+		if len(stepsOnlyKeys) == 0 {
 			ret.WorkflowCall = call
 		}
 	} else {
@@ -1315,11 +1317,11 @@ func (p *parser) parseJob(id *String, n *yaml.Node) *Job {
 		if ret.RunsOn == nil {
 			p.errorfAt(id.Pos, "\"runs-on\" section is missing in job %q", id.Value)
 		}
-		if callOnlyKey != nil {
+		for _, k := range callOnlyKeys {
 			p.errorfAt(
-				callOnlyKey.Pos,
+				k.Pos,
 				"%q is only available for a reusable workflow call with \"uses\" but \"uses\" is not found in job %q",
-				callOnlyKey.Value,
+				k.Value,
 				id.Value,
 			)
 		}
